@@ -216,7 +216,7 @@ func runC14(p *P, r *R) {
 	// R14.8 teardown and failure paths never wait (or call into user code) while holding a mutex that a blocked party
 	// needs in order to finish: otherwise peer death / Close is not contained — the process-wide dispatcher stalls
 	// (shared with C11 R11.11)
-	borrow(p, r, "C11", runC11, map[string]string{"R11.11": "R14.8", "R11.12": "R14.8"}, nil)
+	borrow(p, r, "C11", runC11, map[string]string{"R11.11": "R14.8", "R11.12": "R14.8", "R11.13": "R14.8"}, nil)
 }
 
 func describeEffect(p *P, in ssa.Instruction) string {
